@@ -506,4 +506,5 @@ pub fn run(ctx: &mut Ctx) {
         }
     }
     rt.shutdown_timeout(std::time::Duration::from_secs(2));
+    super::c12_pc::run_subs(ctx);
 }
